@@ -306,14 +306,6 @@ class HistoryRunner:
         ch = self.checks
         ev = self.out.events
         cex, mex = collections.Counter(ex), collections.Counter(m.executed)
-        if cex != mex and "execset" not in ch and "csum" not in ch:
-            # binary and model no longer agree on what ran; this property does not speak about that,
-            # so the rest of the history cannot be judged against the model
-            self.out.diverged = "exec-set"
-            ev["diverged:exec-set"] += 1
-            if nested and not (mex - cex):
-                ev["diverged:nested-csum-overbuild"] += 1
-            return
         # ---------- C01: contents after a successful command ----------
         if ok and "content" in ch:
             memo = {}
@@ -346,6 +338,14 @@ class HistoryRunner:
                     self.violate("C01", "ood-lists-built", dict(ctx, ood=sorted(listed), rc=q.rc,
                                                                  err=q.err.decode("utf-8", "replace")[-500:]),
                                  {"symptom": "ood-after-success"})
+        if cex != mex and "execset" not in ch and "csum" not in ch:
+            # binary and model no longer agree on what ran; this property does not speak about that,
+            # so the rest of the history cannot be judged against the model
+            self.out.diverged = "exec-set"
+            ev["diverged:exec-set"] += 1
+            if nested and not (mex - cex):
+                ev["diverged:nested-csum-overbuild"] += 1
+            return
         # ---------- C11: files redo did not produce are untouched (bytes, inode, mtime) ----------
         if "userfiles" in ch:
             bad = []
